@@ -124,8 +124,21 @@ def rule_b2(ctx, pl: Pipeline, rule_id: str = "C06-B2") -> None:
     for n in own_nodes(spl.node):
         if isinstance(n, ast.Assign) and len(n.targets) == 1 and isinstance(n.targets[0], ast.Subscript) and unparse(n.targets[0].slice) == "self.index_col":
             idstore = n
+    idvalue = idstore.value if idstore is not None else None
+    if idstore is None:
+        # `frame = frame.assign(**{self.index_col: [...]})` / `frame.assign(id=[...])`
+        for n in own_nodes(spl.node):
+            if isinstance(n, ast.Call) and isinstance(n.func, ast.Attribute) and n.func.attr == "assign":
+                for k in n.keywords:
+                    if k.arg is None and isinstance(k.value, ast.Dict):
+                        for kk, vv in zip(k.value.keys, k.value.values):
+                            if kk is not None and unparse(kk) == "self.index_col":
+                                st_ = n
+                                while not isinstance(st_, ast.stmt):
+                                    st_ = getattr(st_, "_parent", None)
+                                idstore, idvalue = st_, vv
     ctx.require(idstore is not None, "data_splitter no longer assigns the id column")
-    v = idstore.value
+    v = idvalue
     positional = False
     if isinstance(v, ast.Name):
         # the labels are prepared in a local, possibly per branch of `data_name is None`: take the branch for None
@@ -143,7 +156,8 @@ def rule_b2(ctx, pl: Pipeline, rule_id: str = "C06-B2") -> None:
             v = cands[0]
     if isinstance(v, ast.ListComp) and len(v.generators) == 1 and not v.generators[0].ifs:
         g = v.generators[0]
-        if unparse(g.iter) in ("self.data.index", "range(len(self.data))") and isinstance(g.target, ast.Name):
+        it_txt = unparse(g.iter)
+        if (it_txt in ("self.data.index", "range(len(self.data))") or (isinstance(g.iter, ast.Attribute) and g.iter.attr == "index") or (it_txt.startswith("range(len(") and it_txt.endswith("))"))) and isinstance(g.target, ast.Name):
             # element must mention the loop variable on the branch taken when data_name is None
             elt = v.elt
             if isinstance(elt, ast.IfExp):
@@ -1115,6 +1129,42 @@ def rule_b11(ctx, scope, rule_id: str = "C06-B11") -> None:
                 picked = c.args[0].args[0]
             elif isinstance(c, ast.Subscript) and isinstance(c.slice, ast.Constant) and isinstance(c.slice.value, int) and isinstance(c.value, ast.Call) and getattr(c.value.func, "id", "") in ("list", "tuple") and c.value.args and is_set_expr(f, c.value.args[0]):
                 picked = c.value.args[0]
+            ordered = None
+            if picked is None and isinstance(c, ast.Call):
+                # an ordered value made from a set in iteration order: list(S) / tuple(S) / sep.join(S) / [.. for x in S]
+                par = getattr(c, "_parent", None)
+                wrapped = isinstance(par, ast.Call) and isinstance(par.func, ast.Name) and par.func.id in ("sorted", "set", "frozenset", "len", "sum", "min", "max", "any", "all", "Counter")
+                if isinstance(c.func, ast.Name) and c.func.id in ("list", "tuple") and len(c.args) == 1 and is_set_expr(f, c.args[0]) and not wrapped and not isinstance(par, ast.Subscript):
+                    ordered = c.args[0]
+                elif isinstance(c.func, ast.Attribute) and c.func.attr == "join" and len(c.args) == 1 and is_set_expr(f, c.args[0]):
+                    ordered = c.args[0]
+            if ordered is not None:
+                # only where the order can be seen: the value is stored in a row / returned / joined into text
+                tgt_names = set()
+                st_ = c
+                while st_ is not None and not isinstance(st_, ast.stmt):
+                    st_ = getattr(st_, "_parent", None)
+                seen_out = isinstance(st_, ast.Return) or (isinstance(c.func, ast.Attribute) and c.func.attr == "join")
+                if isinstance(st_, ast.Assign):
+                    for t in st_.targets:
+                        if isinstance(t, ast.Subscript):
+                            seen_out = True
+                        elif isinstance(t, ast.Name):
+                            tgt_names.add(t.id)
+                for nm in tgt_names:
+                    for x in own_nodes(f.node):
+                        if isinstance(x, ast.Return) and x.value is not None and any(isinstance(y, ast.Name) and y.id == nm for y in ast.walk(x.value)):
+                            seen_out = True
+                        if isinstance(x, ast.Assign) and any(isinstance(t, ast.Subscript) for t in x.targets) and any(isinstance(y, ast.Name) and y.id == nm for y in ast.walk(x.value)):
+                            seen_out = True
+                    # sorted later in place / by sorted(): the order is fixed again
+                    if any(isinstance(x, ast.Call) and ((isinstance(x.func, ast.Attribute) and x.func.attr == "sort" and isinstance(x.func.value, ast.Name) and x.func.value.id == nm) or (isinstance(x.func, ast.Name) and x.func.id == "sorted" and x.args and isinstance(x.args[0], ast.Name) and x.args[0].id == nm)) for x in own_nodes(f.node)):
+                        seen_out = False
+                if seen_out:
+                    n += 1
+                    ctx.instance(rule_id, "%s: %s" % (q.split("synrbl.", 1)[-1], unparse(c)[:60]), f.loc(c), ok=False)
+                    ctx.finding(rule_id, "%s:sequence-in-set-order" % q.split("synrbl.", 1)[-1], f.loc(c), "%s turns the set %s into an ordered value in iteration order and hands it on (row field, return value or joined text): for strings that order depends on the hash seed of the interpreter, so the same reaction gets a differently ordered value in another worker process or run" % (f.name, unparse(ordered)[:50]))
+                continue
             if picked is None:
                 continue
             n += 1
